@@ -569,3 +569,8 @@ M("c16-intersection-y-uses-ax", "C16", "cola/libavoid/geometry.cpp",
   "    num = d*Ay;\n    // Intersection Y:\n    *y = a1.y + (num) / f;\n\n    return DO_INTERSECT;\n}\n\n\n// Line Segment Intersection\n// Original code by Franklin Antonio \n//\nint rayIntersectPoint",
   "    num = d*Ax;\n    // Intersection Y:\n    *y = a1.y + (num) / f;\n\n    return DO_INTERSECT;\n}\n\n\n// Line Segment Intersection\n// Original code by Franklin Antonio \n//\nint rayIntersectPoint",
   mention=["INTERSECTION-POINT", "segmentIntersectPoint"])
+
+# ---------------------------------------------------------------- C12 centre pin
+M("c12-revert-centre-pin", "C12", "cola/libavoid/hyperedgetree.cpp",
+  "                    if ((ps.size() > 1) &&\n                            (ps[ps.size() - 1] == ps[ps.size() - 2]))",
+  "                    if (prevNode->point == nextNode->point)", mention=["TREE-WRITEBACK", "centre pin terminal"])
